@@ -51,56 +51,109 @@ def dataclass(cls=None, /, **kw):
 '''
 
 # type name -> (conversion kind in Coq, python conversion, nullable by type, identity unpacker)
+def _ints(v):
+    return [int(x) for x in v]
+
+
 TYPES = {
     "int": ("CInt", int, False, False),
     "float": ("CFloat", float, False, False),
     "str": ("CStr", str, False, False),
+    "bool": ("CBool", bool, False, False),
     "Any": ("CId", None, True, True),
     "Optional[int]": ("CInt", int, True, False),
+    "Optional[float]": ("CFloat", float, True, False),
     "Optional[str]": ("CStr", str, True, False),
-    "List[int]": ("CList", lambda v: [int(x) for x in v], False, False),
+    "Optional[bool]": ("CBool", bool, True, False),
+    "List[int]": ("CList", _ints, False, False),
+    "Optional[List[int]]": ("CList", _ints, True, False),
 }
+PASSABLE = ("int", "Optional[int]", "Optional[float]")     # types generated with deserialize=pass_through too
+LISTS = ("List[int]", "Optional[List[int]]")
+
+
+def base_of(tname):
+    return tname[9:-1] if tname.startswith("Optional[") else tname
+
+
 NAMES = ["a", "b", "c", "e", "f", "g", "h", "k", "value", "kwargs", "d", "cls", "_p", "m", "n"]
 MISSING = dataclasses.MISSING
 UNSET = object()
 
 
+def typed_value(rng, base, cat):
+    """a value of the base type from one region of the truthiness spectrum: 'falsy' (non-None), 'truthy',
+    'big' (equal objects are not identical: no small-int / interned-string caching)"""
+    if base == "Any":
+        base = rng.choice(["int", "float", "str", "bool"])
+    if base == "int":
+        return {"falsy": 0, "truthy": rng.choice([1, -2, rng.randrange(2, 50)]), "big": rng.choice([257, 1000, 10 ** 6])}[cat]
+    if base == "float":
+        return {"falsy": 0.0, "truthy": float(rng.randrange(1, 50)), "big": float(rng.choice([1000, 10 ** 6]))}[cat]
+    if base == "str":
+        return {"falsy": "", "truthy": "s%d" % rng.randrange(0, 30), "big": "long string %d" % rng.randrange(1000, 9999)}[cat]
+    if base == "bool":
+        return cat != "falsy"
+    if base == "List[int]":
+        return [] if cat == "falsy" else [rng.randrange(0, 9) for _ in range(rng.randrange(1, 3))]
+    raise KeyError(base)
+
+
+def sample_default(rng, tname, cat=None):
+    """a default for a field of that type: falsy non-None / truthy / big / None"""
+    if cat is None:
+        r = rng.random()
+        none_p = 0.22 if TYPES[tname][2] else 0.1        # None under a non-Optional type makes it nullable too
+        cat = "none" if r < none_p else rng.choice(["falsy", "falsy", "truthy", "truthy", "big"])
+    if cat == "none":
+        return None
+    return typed_value(rng, base_of(tname), cat)
+
+
 def sample_value(rng, tname, for_default=False):
-    """a python value of the given field type (inside the value domain of the model)"""
-    if tname == "int":
-        return rng.randrange(-3, 50)
-    if tname == "float":
-        return float(rng.randrange(-3, 50))
-    if tname == "str":
-        return "s%d" % rng.randrange(0, 30)
-    if tname == "Any":
-        return rng.choice([None, rng.randrange(0, 50), "t%d" % rng.randrange(0, 9), float(rng.randrange(0, 9))])
-    if tname == "Optional[int]":
-        return rng.choice([None, rng.randrange(0, 50)])
-    if tname == "Optional[str]":
-        return rng.choice([None, "u%d" % rng.randrange(0, 9)])
-    if tname == "List[int]":
-        return [rng.randrange(0, 9) for _ in range(rng.randrange(0, 3))]
-    raise KeyError(tname)
+    return sample_default(rng, tname) if for_default else typed_value(
+        rng, base_of(tname), rng.choice(["falsy", "truthy", "truthy", "big"]))
 
 
 def sample_input_value(rng, m):
-    """a wire value for a present key: well typed, sometimes in need of conversion, null for nullable fields"""
+    """a wire value for a present key: explicit null for nullable fields, falsy / truthy / big values, values equal to
+    the default (same type, or equal under == with another type), values that need conversion"""
     tname = m["type"]
+    base = base_of(tname)
     # null is sent to a field that is nullable by type or by a None default; not when that default is only the
     # inherited class attribute the eager mixin build cannot see (known finding override-inherits-class-default:
     # there the null would be converted and fail with InvalidFieldValue, which this model does not cover)
     nullable = TYPES[tname][2] or (m["def"] == ("val", None) and not m["inherits_class_default"])
-    if nullable and rng.random() < 0.3:
+    if nullable and rng.random() < 0.35:
         return None
-    if m["pass"]:
-        return rng.choice([rng.randrange(0, 50), float(rng.randrange(0, 9)), "raw%d" % rng.randrange(0, 9)])
-    if tname in ("int", "float", "Optional[int]"):
-        return rng.choice([rng.randrange(-3, 50), float(rng.randrange(0, 50))])
-    v = sample_value(rng, tname)
-    while v is None and rng.random() < 0.7:
-        v = sample_value(rng, tname)
-    return v
+    dv = m["def"][1] if m["def"][0] == "val" else None
+    fits = {"int": (int, float, bool), "float": (int, float, bool), "str": (str,), "bool": (bool,)}
+    if dv is not None and type(dv) in (fits.get(base, ()) if not m["ident"] else (int, float, str, bool)) \
+            and rng.random() < 0.25:
+        # equal to the default: the very value, or an equal one of another type where the field accepts it
+        alts = [dv]
+        if (m["ident"] or base in ("int", "float")) and type(dv) in (int, float, bool) and dv == int(dv):
+            alts += [int(dv), float(dv)] + ([bool(dv)] if dv in (0, 1) else [])
+        if base == "bool":
+            alts += [int(dv)]
+        return rng.choice(alts)
+    cat = rng.choice(["falsy", "truthy", "truthy", "big"])
+    if m["ident"]:
+        return typed_value(rng, "Any", cat)
+    if base in ("int", "float"):
+        v = typed_value(rng, rng.choice(["int", "float"]), cat)
+        return bool(v) if v in (0, 1) and rng.random() < 0.2 else v
+    if base == "bool":
+        return rng.choice([cat != "falsy", int(cat != "falsy")])
+    return typed_value(rng, base, cat)
+
+
+def nonnull_input(rng, m):
+    for _ in range(50):
+        v = sample_input_value(rng, m)
+        if v is not None:
+            return v
+    return 1
 
 
 def gen_program(rng, nmax):
@@ -155,14 +208,14 @@ def gen_program(rng, nmax):
                     cls["members"].append(m)
                     continue
                 use_field = rng.random() < 0.45
-                if tname == "List[int]" and want_default:
-                    use_field = True
+                if tname in LISTS and want_default:
+                    use_field = tname == "List[int]" or rng.random() < 0.6
                 if use_field:
                     fd = {"default": MISSING, "factory": None, "init": rng.random() >= 0.15,
                           "kw_only": rng.choice([None, None, True, False]),
-                          "pass": tname in ("int", "Optional[int]") and rng.random() < 0.35}
+                          "pass": tname in PASSABLE and rng.random() < 0.35}
                     if want_default:
-                        if tname == "List[int]":
+                        if tname in LISTS:
                             fd["factory"] = "list"
                         elif tname == "Any" and rng.random() < 0.6:
                             fd["factory"] = "mk"
@@ -172,7 +225,7 @@ def gen_program(rng, nmax):
                             fd["default"] = sample_value(rng, tname, True)
                     m["rhs"] = ("field", fd)
                 elif want_default:
-                    m["rhs"] = ("plain", None if rng.random() < 0.1 else sample_value(rng, tname, True))
+                    m["rhs"] = ("plain", None if tname in LISTS else sample_value(rng, tname, True))
             cls["members"].append(m)
         if sentinel_at == cnt:
             cls["members"].append({"name": "_", "kind": "sentinel"})
@@ -181,6 +234,45 @@ def gen_program(rng, nmax):
                 inherited.append(m)
         prog["classes"].append(cls)
     return prog
+
+
+def spectrum_programs(rng):
+    """systematic part of the generator: every field type x default region (falsy non-None / truthy / big / None /
+    factory) x converting or pass_through unpacker occurs in every run, spread over classes of <= 8 defaulted fields
+    (declaration form, kw_only-ness and class variant vary); the inputs are all key subsets like everywhere else,
+    so each field meets absent / explicit null / present values many times"""
+    fields = []
+    for tname in TYPES:
+        cats = ["factory"] + (["none"] if TYPES[tname][2] else []) if tname in LISTS else ["falsy", "truthy", "big", "none"]
+        for cat in cats:
+            for passthrough in ([False, True] if tname in PASSABLE else [False]):
+                fields.append((tname, cat, passthrough))
+    rng.shuffle(fields)
+    progs = []
+    for pi, k in enumerate(range(0, len(fields), 8)):
+        variant = pi % 4           # eager mixin / plain dataclass + codec / lazy mixin / eager mixin, two classes
+        prog = {"mixin": variant != 1, "lazy": variant == 2, "plain_base": None, "classes": []}
+        names = list(NAMES)
+        rng.shuffle(names)
+        members = []
+        for tname, cat, passthrough in fields[k:k + 8]:
+            m = {"name": names.pop(), "kind": "normal", "type": tname, "rhs": None}
+            form = "field" if (passthrough or cat == "factory") else rng.choice(["plain", "plain", "field"])
+            if form == "plain":
+                m["rhs"] = ("plain", sample_default(rng, tname, cat))
+            else:
+                m["rhs"] = ("field", {"default": MISSING if cat == "factory" else sample_default(rng, tname, cat),
+                                      "factory": "list" if cat == "factory" else None, "init": True,
+                                      "kw_only": rng.choice([None, None, True, False]), "pass": passthrough})
+            members.append(m)
+        if variant == 3 and len(members) > 3:
+            cutp = len(members) // 2
+            prog["classes"] = [{"name": "C0", "kw_only": False, "slots": False, "members": members[:cutp]},
+                               {"name": "C1", "kw_only": rng.random() < 0.5, "slots": False, "members": members[cutp:]}]
+        else:
+            prog["classes"] = [{"name": "C0", "kw_only": False, "slots": False, "members": members}]
+        progs.append(prog)
+    return progs
 
 
 def render_member(m):
@@ -443,7 +535,7 @@ def to_pv(v):
     if v is None:
         return "PNone"
     if isinstance(v, bool):
-        raise OutOfDomain(repr(v))
+        return "PBool %s" % coq_bool(v)
     if isinstance(v, int):
         return "PInt %s" % coq_z(v)
     if isinstance(v, float):
@@ -619,6 +711,21 @@ def oracle(cls, members, d, outcome):
     return None
 
 
+def region_of(dflt):
+    """where a default lies on the truthiness / None spectrum"""
+    if dflt[0] == "none":
+        return "no-default"
+    if dflt[0] == "fac":
+        return "factory"
+    v = dflt[1]
+    if v is None:
+        return "None"
+    try:
+        return "truthy" if v else "falsy-non-None"
+    except Exception:  # noqa: BLE001
+        return "object"
+
+
 def culprit_of(outcome):
     if outcome[0] == "missing":
         return outcome[1]
@@ -686,6 +793,10 @@ def run(ctx: vlib.Ctx):
     ctx.coverage["rule"] = (
         "random dataclass hierarchies (1-3 classes, required/default/factory/kw_only (field, KW_ONLY marker, decorator)/"
         "init=False/InitVar/ClassVar/overridden members, mixin eager+lazy+slots and plain dataclasses) accepted by Python; "
+        "plus, in every run, a systematic sweep: every field type (int/float/str/bool/Any/List and their Optionals, "
+        "with and without pass_through) x default region (falsy non-None, truthy, big = equal-but-not-identical, None, "
+        "factory); values for present keys span explicit null, falsy/truthy/big values, values equal to the default "
+        "(same or other type); "
         "for each entry point (from_dict, BasicDecoder) every subset of the member names as input keys, one random "
         "well-typed value assignment per subset; distinct = (layout shape, entry timing, key subset)")
     ctx.theorems("props/C07_bind.vo", [
@@ -702,18 +813,21 @@ def run(ctx: vlib.Ctx):
     ctx.assumptions += [
         "layout_ok: member names unique, Python accepts the parameter order, InitVar members have a plain default "
         "(mashumaro never supplies InitVars; a required InitVar makes every from_dict raise TypeError)",
-        "inputs are well typed for the field (null only for nullable fields); aliases, hooks, discriminators, "
+        "inputs are well typed for the field (null only for nullable fields; a null for a non-nullable int/float/list "
+        "field is probed by the python oracle only: it must raise InvalidFieldValue); aliases, hooks, discriminators, "
         "forbid_extra_keys and dialects are other properties",
     ]
-    nprog = ctx.budget(80, 450)
+    nprog = ctx.budget(62, 420)
     nmax = ctx.budget(8, 10)
     lays: list[str] = []
     cases: list[str] = []
     index: list[tuple] = []        # per case: (program idx, entry, mask, d)
     progs: list[dict] = []
     oracle_bad: set[int] = set()
-    for pi in range(nprog):
-        prog = make_program(ctx.rng, nmax)
+    todo = spectrum_programs(ctx.rng)
+    ctx.coverage["spectrum_programs"] = len(todo)
+    for pi in range(nprog + len(todo)):
+        prog = todo[pi] if pi < len(todo) else make_program(ctx.rng, nmax)
         src = render(prog)
         try:
             mod = load(src)
@@ -738,7 +852,16 @@ def run(ctx: vlib.Ctx):
                          ("init=False" if not m["param"] and m["field"] else
                           "plain-base" if not m["field"] else
                           ("kw_only" if m["kw"] else "positional") + "/" + m["def"][0]))
+            for m in members:
+                if m["kind"] == "normal" and m["field"] and m["param"]:
+                    ctx.hist("default_spectrum", "%s/%s/%s" % (
+                        region_of(m["def"]), "nullable-type" if m["nullty"] else "plain-type",
+                        "identity" if m["ident"] else "converting"))
             for mask, d in inputs_for(ctx.rng, members, st, nmax):
+                for m in members:
+                    if m["name"] in d and d[m["name"]] is None and m["kind"] == "normal" and m["param"]:
+                        ctx.hist("explicit_null_against", "%s/%s" % (
+                            region_of(m["def"]), "identity" if m["ident"] else "converting"))
                 outcome = run_real(fn, d, members)
                 ctx.count((shape, timing, mask))
                 # correspondence case
@@ -767,6 +890,38 @@ def run(ctx: vlib.Ctx):
                         ctx.fail("%s(%r): %s" % (entry, d, what),
                                  {"source": src, "entry": entry, "input": d, "observed": show(outcome), "expected": what},
                                  sig)
+            # oracle only (conversion failures are outside the Coq model): an explicit null for a field that is
+            # NOT nullable (neither by type nor by a None default) and whose conversion rejects None must raise
+            # InvalidFieldValue for that field - never be swallowed into None or the default, whatever the default is
+            from mashumaro.exceptions import InvalidFieldValue
+            required_ok = {m["name"]: nonnull_input(ctx.rng, m) for m in members
+                           if m["kind"] == "normal" and m["field"] and m["param"] and m["def"] == ("none",)
+                           and m["name"] in st}
+            for m in members:
+                if not (m["kind"] == "normal" and m["field"] and m["param"] and m["name"] in st and not m["ident"]
+                        and not m["nullty"] and m["def"] != ("val", None) and not m["inherits_class_default"]
+                        and base_of(m["type"]) in ("int", "float", "List[int]")):
+                    continue
+                if any(x["from_plain_base"] or x["inherits_class_default"] for x in members):
+                    break                       # programs of the known findings fail earlier for their own reasons
+                d = dict(required_ok)
+                d[m["name"]] = None
+                ctx.count((shape, timing, "null-for-non-nullable", m["name"]))
+                ctx.hist("explicit_null_against", "%s/non-nullable" % region_of(m["def"]))
+                try:
+                    got = fn(dict(d))
+                    obs = "instance with %s=%r" % (m["name"], getattr(got, m["name"], "<unset>"))
+                except InvalidFieldValue as e:
+                    if e.field_name == m["name"]:
+                        continue
+                    obs = "InvalidFieldValue for %s" % e.field_name
+                except Exception as e:  # noqa: BLE001
+                    obs = "%s: %s" % (type(e).__name__, e)
+                ctx.fail("%s(%r): null for the non-nullable field %s (default %s): expected InvalidFieldValue(%r), observed %s"
+                         % (entry, d, m["name"], region_of(m["def"]), m["name"], obs),
+                         {"source": src, "entry": entry, "input": d, "observed": obs,
+                          "expected": "InvalidFieldValue(%r)" % m["name"], "null_for_non_nullable": m["name"]},
+                         {"kind": "null-for-non-nullable", "entry": entry})
             if len(ctx.coverage["samples"]) < 4:
                 ctx.sample({"classes": src[len(PRELUDE):], "entry": entry, "timing": timing,
                             "signature": [sigpos, sigkw]})
@@ -894,22 +1049,32 @@ def replay(rep: dict) -> int:
     # truth from introspection; declared types are recovered from the annotations
     st = {}
     import typing_extensions
-    names = {"int": "int", "float": "float", "str": "str"}
+    ns = {"Any": typing.Any, "Optional": typing.Optional, "List": typing.List}
+    by_type = [(eval(k, ns), k) for k in TYPES]
     for n, t in typing_extensions.get_type_hints(cls).items():
-        s = names.get(getattr(t, "__name__", ""), None)
-        if t is typing.Any:
-            s = "Any"
-        elif t == typing.Optional[int]:
-            s = "Optional[int]"
-        elif t == typing.Optional[str]:
-            s = "Optional[str]"
-        elif t == typing.List[int]:
-            s = "List[int]"
-        if s and kind_of_hint(t) == "normal":
-            f = cls.__dataclass_fields__.get(n)
-            st[n] = (s, bool(f is not None and f.metadata.get("deserialize") is not None))
+        if kind_of_hint(t) != "normal":
+            continue
+        for tt, k in by_type:
+            if t is tt or (t == tt and type(t) is type(tt)):
+                f = cls.__dataclass_fields__.get(n)
+                st[n] = (k, bool(f is not None and f.metadata.get("deserialize") is not None))
+                break
     members, _, _ = analyse(mod, st, "post")
     d = rep["input"]
+    if rep.get("null_for_non_nullable"):
+        from mashumaro.exceptions import InvalidFieldValue
+        try:
+            got = fn(dict(d))
+            print("entry", rep["entry"], "input", d, "-> instance", got)
+        except InvalidFieldValue as e:
+            print("entry", rep["entry"], "input", d, "-> InvalidFieldValue", e.field_name)
+            if e.field_name == rep["null_for_non_nullable"]:
+                print("not reproduced")
+                return 0
+        except Exception as e:  # noqa: BLE001
+            print("entry", rep["entry"], "input", d, "->", type(e).__name__, e)
+        print("REPRODUCED")
+        return 1
     outcome = run_real(fn, d, members)
     bad = oracle(cls, members, d, outcome)
     print("entry", rep["entry"], "input", d, "->", show(outcome))
